@@ -126,6 +126,7 @@ Proof.
   rewrite firstn_app_len by lia. reflexivity.
 Qed.
 
+Ltac norm_app := repeat first [rewrite <- app_assoc | rewrite <- app_comm_cons | progress (cbn [app])].
 Ltac lens := repeat first [rewrite app_length | progress (cbn [length])]; lia.
 
 (* ------------------------------------------------------------------ parseAuditHeader *)
@@ -881,3 +882,216 @@ Section LineLemmas.
       + exact (parse_uint_range 16 n t ltac:(lia) P).
   Qed.
 End LineLemmas.
+
+(* ------------------------------------------------------------------ well-formed lines *)
+
+Definition c_eq : ascii := "="%char.
+Definition c_sp : ascii := " "%char.
+
+(* "audit(" s1 "." s2 ":" s3 ")" *)
+Definition header_text (s1 s2 s3 : str) : str :=
+  s2l "audit" ++ c_lparen :: s1 ++ c_dot :: s2 ++ c_colon :: s3 ++ [c_rparen].
+
+(* a body that TrimSpace leaves alone at its end: empty, or ending in an ASCII byte that is not white space *)
+Definition clean_end (b : str) : Prop :=
+  match b with [] => True | c :: r => edge_ok (last r c) = true end.
+
+Lemma last_app_cons {A} (x : list A) : forall y b d, last (x ++ y :: b) d = last b y.
+Proof.
+  induction x as [|z x IH]; intros y b d.
+  - cbn [app]. apply last_cons.
+  - cbn [app]. rewrite last_cons. apply IH.
+Qed.
+
+Lemma int_bytes_not s z c :
+  parse_int 64 s = NumOk z -> is_digit c = false -> c <> c_plus -> c <> c_minus -> ~ In c s.
+Proof.
+  intros P D H1 H2 Hin. destruct (parse_int_ok_bytes 64 s z c ltac:(lia) P Hin) as [H|[H|H]]; congruence.
+Qed.
+
+Lemma uint_bytes_not bits s v c :
+  (bits <= 64)%N -> parse_uint bits s = NumOk v -> is_digit c = false -> ~ In c s.
+Proof. intros Hb P D Hin. rewrite (parse_uint_ok_bytes bits s v c Hb P Hin) in D. discriminate. Qed.
+
+Lemma header_text_wf s1 s2 s3 sec msec sq b :
+  parse_int 64 s1 = NumOk sec -> parse_int 64 s2 = NumOk msec -> parse_uint 32 s3 = NumOk sq ->
+  header_wf (header_text s1 s2 s3 ++ b) sec msec sq (5 + 1 + length s1 + 1 + length s2 + 1 + length s3).
+Proof.
+  intros P1 P2 P3. exists (s2l "audit"), s1, s2, s3, b.
+  split; [unfold header_text; norm_app; reflexivity|].
+  split; [intros H; cbn in H; repeat (destruct H as [H|H]; [discriminate H|]); exact H|].
+  split; [apply (int_bytes_not s1 sec c_dot P1); [reflexivity|discriminate|discriminate]|].
+  split; [apply (int_bytes_not s2 msec c_colon P2); [reflexivity|discriminate|discriminate]|].
+  split; [apply (uint_bytes_not 32 s3 sq c_rparen ltac:(lia) P3); reflexivity|].
+  repeat (split; [assumption|]). reflexivity.
+Qed.
+
+Lemma header_text_trimmed s1 s2 s3 b : clean_end b -> trimmed_text (header_text s1 s2 s3 ++ b).
+Proof.
+  intros H.
+  assert (E : header_text s1 s2 s3 ++ b =
+              "a"%char :: (s2l "udit" ++ c_lparen :: s1 ++ c_dot :: s2 ++ c_colon :: s3) ++ c_rparen :: b).
+  { unfold header_text. cbn [s2l list_ascii_of_string]. norm_app. reflexivity. }
+  rewrite E. split; [reflexivity|]. rewrite last_app_cons.
+  destruct b as [|c r]; [reflexivity|]. rewrite last_cons. exact H.
+Qed.
+
+Lemma header_text_tail s1 s2 s3 b :
+  skipn (5 + 1 + length s1 + 1 + length s2 + 1 + length s3) (header_text s1 s2 s3 ++ b) = c_rparen :: b.
+Proof.
+  replace (header_text s1 s2 s3 ++ b)
+    with ((s2l "audit" ++ c_lparen :: s1 ++ c_dot :: s2 ++ c_colon :: s3) ++ c_rparen :: b).
+  - apply skipn_app_len. cbn [s2l list_ascii_of_string]. lens.
+  - unfold header_text. norm_app. reflexivity.
+Qed.
+
+Section WellFormed.
+  Variable type_of : str -> option N.
+
+  (* Field extraction.  P: the first five bytes (never looked at); T: the type name; lead / trail: ASCII white
+     space; s1, s2, s3: any strings the number parsers accept (sign and leading zeros included for s1, s2; leading
+     zeros for s3); b: the rest of the record.  Hypothesis [Hfirst]: in  P T " msg="  the final "msg=" is the
+     first one (see type_prefix_first for "type=" and a T without '='). *)
+  Theorem wf_line_parses P T t lead s1 s2 s3 sec msec sq b trail :
+    length P = 5 ->
+    go_index (P ++ T ++ c_sp :: msg_token) msg_token = Some (6 + length T) ->
+    get_type type_of T = TyOk t ->
+    all_space lead = true -> all_space trail = true ->
+    parse_int 64 s1 = NumOk sec -> parse_int 64 s2 = NumOk msec -> parse_uint 32 s3 = NumOk sq ->
+    clean_end b ->
+    parse_log_line type_of (P ++ T ++ c_sp :: msg_token ++ lead ++ header_text s1 s2 s3 ++ b ++ trail)
+    = POk (mkMsg t sec msec sq (index_of_message (c_rparen :: b)) (header_text s1 s2 s3 ++ b)).
+  Proof.
+    intros HP Hfirst HT Hl Htr P1 P2 P3 Hb.
+    set (rest := lead ++ header_text s1 s2 s3 ++ b ++ trail).
+    assert (EL : P ++ T ++ c_sp :: msg_token ++ rest = (P ++ T ++ c_sp :: msg_token) ++ rest).
+    { norm_app. reflexivity. }
+    rewrite EL.
+    pose proof (go_index_app_stable msg_token _ _ rest Hfirst) as GI.
+    apply parse_log_line_ok_iff.
+    exists (6 + length T), t, sec, msec, sq, (5 + 1 + length s1 + 1 + length s2 + 1 + length s3), (header_text s1 s2 s3 ++ b).
+    split; [exact GI|]. split; [lia|].
+    assert (TN : type_name ((P ++ T ++ c_sp :: msg_token) ++ rest) (6 + length T) = T).
+    { unfold type_name. rewrite <- !app_assoc. rewrite (skipn_app_len P _ 5 (eq_sym HP)).
+      replace (6 + length T - 6) with (length T) by lia. apply firstn_app_len. reflexivity. }
+    rewrite TN. split; [exact HT|].
+    assert (MT : msg_text ((P ++ T ++ c_sp :: msg_token) ++ rest) (6 + length T) = rest).
+    { unfold msg_text. apply skipn_app_len. rewrite !app_length. cbn [length]. rewrite msg_token_len. lia. }
+    rewrite MT. split.
+    - unfold rest. rewrite (trim_space_lead lead _ Hl). rewrite app_assoc. rewrite (trim_space_trail _ trail Htr).
+      apply trimmed_fix. apply header_text_trimmed. exact Hb.
+    - split; [apply header_text_wf; assumption|]. rewrite header_text_tail. reflexivity.
+  Qed.
+
+  (* "msg=" cannot begin inside a stretch without '=' that is followed by "msg=" *)
+  Lemma has_prefix_msg_no_eq a rest :
+    a <> [] -> ~ In c_eq a -> has_prefix msg_token (a ++ msg_token ++ rest) = false.
+  Proof.
+    intros Ha Hn. unfold has_prefix, msg_token. cbn [s2l list_ascii_of_string].
+    destruct a as [|x [|y [|z [|w a']]]]; [congruence| | | |]; cbn [app strip_prefix].
+    - destruct (Ascii.eqb "m" x); reflexivity.
+    - destruct (Ascii.eqb "m" x); [|reflexivity]. destruct (Ascii.eqb "s" y); reflexivity.
+    - destruct (Ascii.eqb "m" x); [|reflexivity]. destruct (Ascii.eqb "s" y); [|reflexivity].
+      destruct (Ascii.eqb "g" z); reflexivity.
+    - destruct (Ascii.eqb "m" x); [|reflexivity]. destruct (Ascii.eqb "s" y); [|reflexivity].
+      destruct (Ascii.eqb "g" z); [|reflexivity].
+      destruct (Ascii.eqb_spec "="%char w) as [<-|_]; [|reflexivity].
+      exfalso. apply Hn. right. right. right. left. reflexivity.
+  Qed.
+
+  Lemma go_index_no_eq a rest : ~ In c_eq a -> go_index (a ++ msg_token ++ rest) msg_token = Some (length a).
+  Proof.
+    induction a as [|x a IH]; intros Hn.
+    - cbn [app length]. rewrite go_index_unfold.
+      assert (E : has_prefix msg_token (msg_token ++ rest) = true) by (apply has_prefix_true; exists rest; reflexivity).
+      rewrite E. reflexivity.
+    - rewrite go_index_unfold. rewrite (has_prefix_msg_no_eq (x :: a) rest) by (try exact Hn; discriminate).
+      cbn [app]. rewrite IH by (intros H; apply Hn; right; exact H). reflexivity.
+  Qed.
+
+  Lemma type_prefix_first T :
+    ~ In c_eq T -> go_index (type_token ++ T ++ c_sp :: msg_token) msg_token = Some (6 + length T).
+  Proof.
+    intros Hn.
+    assert (G : go_index ((T ++ [c_sp]) ++ msg_token ++ []) msg_token = Some (length (T ++ [c_sp]))).
+    { apply go_index_no_eq. intros H. apply in_app_or in H. destruct H as [H|[H|[]]]; [exact (Hn H)|discriminate H]. }
+    rewrite app_nil_r, <- app_assoc in G. cbn [app] in G. rewrite app_length in G. cbn [length] in G.
+    unfold type_token. cbn [s2l list_ascii_of_string app].
+    do 5 (rewrite go_index_unfold; unfold has_prefix at 1, msg_token at 1; cbn [s2l list_ascii_of_string strip_prefix Ascii.eqb Bool.eqb]).
+    rewrite G. f_equal. lia.
+  Qed.
+
+  (* the record as auditd writes it *)
+  Corollary wf_type_line_parses T t lead s1 s2 s3 sec msec sq b trail :
+    ~ In c_eq T -> get_type type_of T = TyOk t ->
+    all_space lead = true -> all_space trail = true ->
+    parse_int 64 s1 = NumOk sec -> parse_int 64 s2 = NumOk msec -> parse_uint 32 s3 = NumOk sq ->
+    clean_end b ->
+    parse_log_line type_of (type_token ++ T ++ c_sp :: msg_token ++ lead ++ header_text s1 s2 s3 ++ b ++ trail)
+    = POk (mkMsg t sec msec sq (index_of_message (c_rparen :: b)) (header_text s1 s2 s3 ++ b)).
+  Proof.
+    intros Hn. apply wf_line_parses; [reflexivity|apply type_prefix_first; exact Hn].
+  Qed.
+
+  (* one more byte in front of "type=": the type name is read one byte late ("=" ++ T) *)
+  Corollary shifted_line_parses x T t lead s1 s2 s3 sec msec sq b trail :
+    ~ In c_eq T -> get_type type_of (c_eq :: T) = TyOk t ->
+    all_space lead = true -> all_space trail = true ->
+    parse_int 64 s1 = NumOk sec -> parse_int 64 s2 = NumOk msec -> parse_uint 32 s3 = NumOk sq ->
+    clean_end b ->
+    parse_log_line type_of (x :: type_token ++ T ++ c_sp :: msg_token ++ lead ++ header_text s1 s2 s3 ++ b ++ trail)
+    = POk (mkMsg t sec msec sq (index_of_message (c_rparen :: b)) (header_text s1 s2 s3 ++ b)).
+  Proof.
+    intros Hn HT. 
+    change (x :: type_token ++ T ++ c_sp :: msg_token ++ lead ++ header_text s1 s2 s3 ++ b ++ trail)
+      with ((x :: s2l "type") ++ (c_eq :: T) ++ c_sp :: msg_token ++ lead ++ header_text s1 s2 s3 ++ b ++ trail).
+    apply wf_line_parses; [reflexivity| |exact HT].
+    pose proof (type_prefix_first T Hn) as G.
+    change ((x :: s2l "type") ++ (c_eq :: T) ++ c_sp :: msg_token) with (x :: type_token ++ T ++ c_sp :: msg_token).
+    rewrite go_index_unfold.
+    assert (E : has_prefix msg_token (x :: type_token ++ T ++ c_sp :: msg_token) = false).
+    { unfold has_prefix, msg_token, type_token. cbn [s2l list_ascii_of_string app strip_prefix].
+      destruct (Ascii.eqb "m" x); reflexivity. }
+    rewrite E, G. cbn [length]. f_equal.
+  Qed.
+
+  Lemma shifted_line_err x T lead s1 s2 s3 b trail :
+    ~ In c_eq T -> get_type type_of (c_eq :: T) = TyErr ->
+    parse_log_line type_of (x :: type_token ++ T ++ c_sp :: msg_token ++ lead ++ header_text s1 s2 s3 ++ b ++ trail)
+    = PErrType.
+  Proof.
+    intros Hn HT. apply parse_log_line_err_type_iff.
+    set (rest := lead ++ header_text s1 s2 s3 ++ b ++ trail).
+    exists (7 + length T).
+    assert (GI : go_index (x :: type_token ++ T ++ c_sp :: msg_token) msg_token = Some (7 + length T)).
+    { rewrite go_index_unfold.
+      assert (E : has_prefix msg_token (x :: type_token ++ T ++ c_sp :: msg_token) = false).
+      { unfold has_prefix, msg_token, type_token. cbn [s2l list_ascii_of_string app strip_prefix].
+        destruct (Ascii.eqb "m" x); reflexivity. }
+      rewrite E, (type_prefix_first T Hn). reflexivity. }
+    assert (EL : x :: type_token ++ T ++ c_sp :: msg_token ++ rest = (x :: type_token ++ T ++ c_sp :: msg_token) ++ rest).
+    { norm_app. reflexivity. }
+    rewrite EL. split; [apply go_index_app_stable; exact GI|]. split; [lia|].
+    assert (TN : type_name ((x :: type_token ++ T ++ c_sp :: msg_token) ++ rest) (7 + length T) = c_eq :: T).
+    { unfold type_name.
+      replace ((x :: type_token ++ T ++ c_sp :: msg_token) ++ rest)
+        with ((x :: s2l "type") ++ ((c_eq :: T) ++ (c_sp :: msg_token) ++ rest))
+        by (unfold type_token; cbn [s2l list_ascii_of_string]; norm_app; reflexivity).
+      rewrite (skipn_app_len (x :: s2l "type") _ 5 eq_refl).
+      replace (7 + length T - 6) with (length (c_eq :: T)) by (cbn [length]; lia). apply firstn_app_len. reflexivity. }
+    rewrite TN. exact HT.
+  Qed.
+End WellFormed.
+
+(* ------------------------------------------------------------------ time *)
+
+(* a millisecond field 0..999 (what auditd writes) is the time sec + msec/1000 exactly *)
+Lemma time_unix_plain sec msec : (0 <= msec < 1000)%Z -> time_unix sec msec = (sec, (msec * 1000000)%Z).
+Proof.
+  intros H. unfold time_unix.
+  assert (W : wrap64 (msec * 1000000) = (msec * 1000000)%Z).
+  { unfold wrap64. rewrite Z.mod_small by lia. lia. }
+  rewrite W.
+  destruct (Z.ltb_spec (msec * 1000000) 0) as [H1|H1]; [lia|].
+  destruct (Z.leb_spec 1000000000 (msec * 1000000)) as [H2|H2]; [lia|]. reflexivity.
+Qed.
